@@ -25,6 +25,8 @@ type c22Op struct {
 	Len    int    `json:"len,omitempty"`
 	Stable uint32 `json:"stable,omitempty"`
 	Size   uint64 `json:"size,omitempty"`
+	// environment answer: the backend's Sync fails (EIO) during this request
+	SyncFails bool `json:"sync_fails,omitempty"`
 }
 
 type c22Case struct {
@@ -55,6 +57,9 @@ func c22Alphabet() []c22Op {
 			}
 		}
 	}
+	// a WRITE (and a COMMIT) during which the backend refuses to sync: whatever is acknowledged must still be durable
+	ops = append(ops, c22Op{Kind: "write", Off: 0, Len: 3, Stable: 2, SyncFails: true}, c22Op{Kind: "write", Off: 2, Len: 1, Stable: 0, SyncFails: true},
+		c22Op{Kind: "commit", SyncFails: true})
 	ops = append(ops, c22Op{Kind: "commit"}, c22Op{Kind: "setsize", Size: 0}, c22Op{Kind: "setsize", Size: 1}, c22Op{Kind: "setsize", Size: 5},
 		c22Op{Kind: "create"}, c22Op{Kind: "update-policy"}, c22Op{Kind: "update-tuning"})
 	return ops
@@ -109,6 +114,16 @@ func c22Run(c *vCtx, hist []c22Op, only *c22Case) {
 		var err error
 		isWrite, isComm := false, false
 		var payload []byte
+		if op.SyncFails {
+			e.fs.Hook = func(o *recfs.Op) error {
+				if o.Name == "Sync" {
+					return fmt.Errorf("input/output error")
+				}
+				return nil
+			}
+		} else {
+			e.fs.Hook = nil
+		}
 		switch op.Kind {
 		case "write":
 			isWrite = true
@@ -275,7 +290,7 @@ func init() {
 	vRegister(&vCheck{
 		id: "C22", level: "fault_enumeration", flavour: "vtime",
 		shards: func(string) int { return 16 },
-		rule: "every request history up to depth 4 (thorough 5) over {WRITE off in {0,2} x len in {1,3} x stable in {UNSTABLE,DATA_SYNC,FILE_SYNC}, COMMIT, SETATTR size in {0,1,5}, CREATE of the existing name, UpdatePolicyOptions, UpdateTuningOptions} on one file; the event stream (backend WriteAt/Truncate/Sync calls with their payload, and replies) is cut at every crash point; for every subset of the not-yet-synced data writes of the prefix the durable file image is computed and compared with the image that keeps every write whose request was acknowledged FILE_SYNC or is covered by an acknowledged later COMMIT. Non-trivial = (history, crash point, non-empty dropped subset). Write verifiers of all WRITE/COMMIT replies of an instance must be identical; two instances created 1 ns apart must differ.",
+		rule: "every request history up to depth 4 (thorough 5) over {WRITE off in {0,2} x len in {1,3} x stable in {UNSTABLE,DATA_SYNC,FILE_SYNC}, two WRITEs and a COMMIT during which the backend's Sync fails with EIO (an environment answer: a failed Sync makes nothing durable), COMMIT, SETATTR size in {0,1,5}, CREATE of the existing name, UpdatePolicyOptions, UpdateTuningOptions} on one file; the event stream (backend WriteAt/Truncate/Sync calls with their payload, and replies) is cut at every crash point; for every subset of the not-yet-synced data writes of the prefix the durable file image is computed and compared with the image that keeps every write whose request was acknowledged FILE_SYNC or is covered by an acknowledged later COMMIT. Non-trivial = (history, crash point, non-empty dropped subset). Write verifiers of all WRITE/COMMIT replies of an instance must be identical; two instances created 1 ns apart must differ.",
 		assumptions: []string{"crash model: data written through a file handle becomes durable at File.Sync on that path; truncation and namespace operations are durable immediately (journalled metadata)",
 			"the clock advances between two server constructions"},
 		run: func(c *vCtx) {
